@@ -365,7 +365,18 @@ func buildCaseOfProject(p Project) (bc buildCase) {
 		}
 		rootName = filepath.Join(d, p.Root)
 	}
-	c2 := core.NewJApiCore(fs.NewFile(rootName, p.Files[p.Root]))
+	return buildCaseAt(rootName, p.Files[p.Root], p.Banned)
+}
+
+// buildCaseAt runs the real code on the root file `rootName` (files it includes are read from the disk).
+func buildCaseAt(rootName string, rootContent []byte, banned []directive.Enumeration) (bc buildCase) {
+	defer func() {
+		if r := recover(); r != nil {
+			bc.Skip = "panic (C01 matter)"
+		}
+	}()
+	p := Project{Files: map[string][]byte{"root": rootContent}, Root: "root", Banned: banned}
+	c2 := core.NewJApiCore(fs.NewFile(rootName, rootContent))
 	if je := c2.VerifScanOnly(); je != nil {
 		bc.Skip = "rejected while scanning"
 		return
@@ -385,7 +396,7 @@ func buildCaseOfProject(p Project) (bc buildCase) {
 		oo = append(oo, core.WithBannedDirectives(p.Banned...))
 	}
 	oo = append(oo, core.WithFixedSeedForRegex())
-	c1 := core.NewJApiCore(fs.NewFile(rootName, p.Files[p.Root]), oo...)
+	c1 := core.NewJApiCore(fs.NewFile(rootName, rootContent), oo...)
 	if je := c1.ValidateJAPI(); je != nil {
 		cl := classifyBuildMsg(je.Msg)
 		if cl == "" {
@@ -628,4 +639,50 @@ func twoRequestsDoc(r *Rng) []byte {
 		b = "" // control: a single Request
 	}
 	return []byte("JSIGHT 0.3\nPOST /p\n" + a + between + b + "  200 any\n")
+}
+
+// buildCorrespondenceFixtureProjects: the fixture files that use INCLUDE, run in place (the files they include are
+// read from the repository's testdata directory)
+func buildCorrespondenceFixtureProjects(ctx *Ctx) {
+	mp, err := ctx.Model("jsight-build")
+	if err != nil {
+		ctx.Break("correspondence catalog construction: model not available: " + err.Error())
+		return
+	}
+	var cases []buildCase
+	var reqs []string
+	var names []string
+	for _, f := range fixtureFiles() {
+		if !strings.Contains(f, "include") {
+			continue
+		}
+		b, err := os.ReadFile(f)
+		if err != nil {
+			continue
+		}
+		bc := buildCaseAt(f, b, nil)
+		if bc.Skip != "" {
+			ctx.Cov.Hit("build (fixture projects): " + bc.Skip)
+			continue
+		}
+		cases = append(cases, bc)
+		reqs = append(reqs, bc.Proto)
+		names = append(names, f)
+	}
+	outs, err := mp.Batch(reqs)
+	if err != nil {
+		ctx.Break("correspondence catalog construction: " + err.Error())
+		return
+	}
+	bad := 0
+	for k, out := range outs {
+		ctx.Cov.Count([]byte(reqs[k]), true)
+		if why := compareBuild(cases[k], out); why != "" {
+			bad++
+			if bad <= 3 {
+				ctx.Break(fmt.Sprintf("correspondence catalog construction (%s): fixture %s: implementation %q at %v, model %q", why, names[k], trunc(cases[k].Real, 700), cases[k].ErrAt, trunc(out, 700)))
+			}
+		}
+	}
+	ctx.Cov.Component("catalog construction: Model/Build.lean vs the real pipeline on the fixture projects that use INCLUDE", len(reqs), bad, "")
 }
